@@ -231,7 +231,12 @@ def compare_slice(run, name: str, base: dict, body_max, *, integ="generic", mode
                 run.model_drift(f"{tag}: real call {tr['ops']} from a reachable state is not a behaviour of PyWriter")
             continue
         if o["bad"]:
-            env.machinery_failure(f"writer graph: PyWriter's own composite clause {o['bad']} fails on a call re-executed from a real state ({name})")
+            # the model, started from the REAL state, breaks its own clause: that state is not one PyWriter reaches (the code departs from the model);
+            # the verdict on the code is the inductive step above, which does not use PyWriter
+            mism += 1
+            if mism <= 2:
+                run.model_drift(f"{tag}: re-executed from the real state, PyWriter's own clause {o['bad']} fails for {tr['ops']}: the real state is foreign to the model")
+            continue
         mrows = [x for op_rows in o["rows"] for x in op_rows]
         if canon([writer.norm_row(x) for x in mrows]) != canon([writer.norm_row(x) for x in tr["rows"]]) or canon(o["to"]) != canon(tr["to"]):
             mism += 1
